@@ -3,6 +3,7 @@ package main
 // Evidence file and verdict lines.
 
 import (
+	"regexp"
 	"encoding/json"
 	"fmt"
 	"os"
@@ -136,7 +137,7 @@ func writeEvidence(out *RunOutput, known []*KnownFinding, seed int) int {
 			} else {
 				ran := false
 				for _, h := range out.Harnesses {
-					if h.Name == k.Harness {
+					if k.matches(h.Name, k.Assert) || regexp.MustCompile("^(" + k.Harness + ")$").MatchString(h.Name) {
 						ran = true
 					}
 				}
